@@ -359,3 +359,30 @@ def spec_gradient(row, col, elev, vrow, vcol, velev, ew_res, ns_res):
 
 def spec_dist2(row, col, vrow, vcol, ew_res, ns_res):
     return ((col - vcol) * ew_res) * ((col - vcol) * ew_res) + ((row - vrow) * ns_res) * ((row - vrow) * ns_res)
+
+
+# ------------------------------------------------------------------ C17 local operators (per-cell bodies)
+def count_lt(A, r, ref, n):
+    # number of layers j < n whose value at cell r is below the reference
+    if n <= 0:
+        return 0
+    return count_lt(A, r, ref, n - 1) + (1 if ref > A[r, n - 1] else 0)
+
+
+def count_eq(A, r, ref, n):
+    if n <= 0:
+        return 0
+    return count_eq(A, r, ref, n - 1) + (1 if ref == A[r, n - 1] else 0)
+
+
+def count_gt(A, r, ref, n):
+    if n <= 0:
+        return 0
+    return count_gt(A, r, ref, n - 1) + (1 if ref < A[r, n - 1] else 0)
+
+
+def row_has_nan(A, r, n):
+    return any(isnan(A[r, j]) for j in range(0, n))
+
+
+RECURSIVE.update({"count_lt": "int", "count_eq": "int", "count_gt": "int"})
